@@ -248,6 +248,8 @@ struct Rw<'a> {
     rules: RefCell<BTreeMap<String, usize>>,
     loop_idx: Cell<usize>,
     closure_idx: Cell<usize>,
+    call_idx: RefCell<BTreeMap<String, usize>>,
+    let_idx: RefCell<BTreeMap<String, usize>>,
     used_sections: RefCell<Vec<String>>,
     errors: RefCell<Vec<Fail>>,
 }
@@ -477,6 +479,35 @@ impl<'a, 'b, 'ast> Visit<'ast> for Collector<'a, 'b> {
                     self.edits.push((r.start, r.end, out));
                 }
             }
+            Stmt::Expr(e, semi) if matches!(e, Expr::MethodCall(_) | Expr::Call(_)) => {
+                // anchor "after-call NAME#K": proof text right after the K-th statement that is a call of NAME
+                let name = match e {
+                    Expr::MethodCall(c) => c.method.to_string(),
+                    Expr::Call(c) => match &*c.func {
+                        Expr::Path(p) => p.path.segments.last().map(|x| x.ident.to_string()).unwrap_or_default(),
+                        _ => String::new(),
+                    },
+                    _ => String::new(),
+                };
+                let k = {
+                    let mut m = self.rw.call_idx.borrow_mut();
+                    let c = m.entry(name.clone()).or_insert(0);
+                    *c += 1;
+                    *c - 1
+                };
+                if let Some(t) = self.rw.section(&format!("after-call {name}#{k}")) {
+                    let body = self.rw.render_expr(e);
+                    let r = s.span().byte_range();
+                    let text = if semi.is_some() {
+                        format!("{};\nproof {{ //@p\n{}\n}} //@p\n", body, mark(t))
+                    } else {
+                        format!("{{ {};\nproof {{ //@p\n{}\n}} //@p\n}}", body, mark(t))
+                    };
+                    self.edits.push((r.start, r.end, text));
+                } else {
+                    visit::visit_stmt(self, s)
+                }
+            }
             Stmt::Local(l) => {
                 // anchors "after-let NAME" / "before-let NAME": proof text next to the let that binds NAME
                 struct Names(Vec<String>);
@@ -488,13 +519,31 @@ impl<'a, 'b, 'ast> Visit<'ast> for Collector<'a, 'b> {
                 let mut n = Names(vec![]);
                 n.visit_pat(&l.pat);
                 for name in n.0 {
-                    if let Some(t) = self.rw.section(&format!("after-let {name}")) {
-                        let at = s.span().byte_range().end;
-                        self.edits.push((at, at, format!("\nproof {{ //@p\n{}\n}} //@p\n", mark(t))));
+                    // occurrences of `let NAME` are numbered in source order: "after-let NAME#K"
+                    // ("after-let NAME" is the first one)
+                    let k = {
+                        let mut m = self.rw.let_idx.borrow_mut();
+                        let c = m.entry(name.clone()).or_insert(0);
+                        *c += 1;
+                        *c - 1
+                    };
+                    let mut keys = vec![format!("{name}#{k}")];
+                    if k == 0 {
+                        keys.push(name.clone());
                     }
-                    if let Some(t) = self.rw.section(&format!("before-let {name}")) {
-                        let at = s.span().byte_range().start;
-                        self.edits.push((at, at, format!("proof {{ //@p\n{}\n}} //@p\n", mark(t))));
+                    for key in keys {
+                        if let Some(t) = self.rw.section(&format!("after-let {key}")) {
+                            let at = s.span().byte_range().end;
+                            self.edits.push((at, at, format!("\nproof {{ //@p\n{}\n}} //@p\n", mark(t))));
+                        }
+                        if let Some(t) = self.rw.section(&format!("after-let-raw {key}")) {
+                            let at = s.span().byte_range().end;
+                            self.edits.push((at, at, format!("\n{}\n", mark(t))));
+                        }
+                        if let Some(t) = self.rw.section(&format!("before-let {key}")) {
+                            let at = s.span().byte_range().start;
+                            self.edits.push((at, at, format!("proof {{ //@p\n{}\n}} //@p\n", mark(t))));
+                        }
                     }
                 }
                 visit::visit_stmt(self, s)
@@ -656,6 +705,8 @@ fn extract_body(repo: &Path, source: &str, d: &Directive, variant: &str) -> Resu
         rules: RefCell::new(rules),
         loop_idx: Cell::new(0),
         closure_idx: Cell::new(0),
+        call_idx: RefCell::new(BTreeMap::new()),
+        let_idx: RefCell::new(BTreeMap::new()),
         used_sections: RefCell::new(vec![]),
         errors: RefCell::new(vec![]),
     };
